@@ -11,6 +11,7 @@ CONSTANTS
   MaxBal = 2
   Kinds <- KindsSimPoA
   Ords <- OrdTwo4
+  AliasSafe = FALSE
   Window = FALSE
   D = 14
   Gal = "never"
